@@ -632,11 +632,17 @@ func (w *world) facts(tx *types.Tx, stNonce uint64, cons string) string {
 		rcptAddr = w.resolve(r)
 		kv("rres", b01(rcptAddr != nil))
 	}
-	if body.Type == types.TxType_FEEDELEGATION && len(rcptAddr) > 0 {
-		if as, err := state.GetAccountState(rcptAddr, sdb); err == nil {
-			kv("rbal", as.Balance().String())
+	if body.Type == types.TxType_FEEDELEGATION && len(body.Recipient) > 0 {
+		payer := body.Recipient // the pool resolves only name-length recipients
+		if tx.HasNameRecipient() {
+			payer = rcptAddr
 		}
-		kv("fd", w.fdFact(rcptAddr, tx))
+		if payer != nil {
+			if as, err := state.GetAccountState(payer, sdb); err == nil {
+				kv("rbal", as.Balance().String())
+			}
+			kv("fd", w.fdFact(payer, tx))
+		}
 	}
 
 	var ci types.CallInfo
@@ -901,8 +907,12 @@ func (w *world) runCase(c *txCase, commit bool) (admit, exec string) {
 		ex := chain.NewTxExecutor(context.Background(), w.ccc(c.cons), nil, bi, mode)
 		return guard(func() error { return ex(bs, txe) }), bs
 	}
+	// (only a system transaction that got past its validation touches the process-wide parameters / rank)
+	sysTx := tx.Body.Type == types.TxType_GOVERNANCE && string(tx.Body.Recipient) == types.AergoSystem
 	erF, _ := exec1(contract.BlockFactory)
-	w.reload()
+	if sysTx && (erF.err == nil || erF.panicked) {
+		w.reload()
+	}
 	er, bs := exec1(contract.ChainService)
 	exec = "done"
 	if er.panicked {
@@ -955,7 +965,7 @@ func (w *world) runCase(c *txCase, commit bool) (admit, exec string) {
 		w.commit(bs)
 		w.setup = append(w.setup, fmt.Sprintf("block %d signer %d -> %s %s amount %s: %s  [%s]", w.blockNo, c.who, tx.Body.Type, printable(c.rcpt), tx.Body.GetAmountBigInt(), c.payload, receiptOf(bs)))
 		w.blockNo++
-	} else {
+	} else if sysTx && (er.err == nil || er.panicked) {
 		w.reload()
 	}
 	return
